@@ -160,6 +160,58 @@ def sequential_search(R, plain, drv, diverged):
                              pool=list(run["case"]["pool"]), violations=diffs[:4]))
 
 
+def schedule_dependence(R, drv):
+    """a workspace link that points at the cache path of an object which is NOT in the cache (a dangling link into the cache), next to a
+    regular file that holds exactly the bytes of that object: with one worker (entries in listing order) the result is fixed; with the
+    default pool it must be the same on every run (Lean counterpart: ExampleOrder.order_matters_dangling_link in Props/C13order.lean)"""
+    import os, shutil, subprocess, tempfile
+    dud = vlib.build_dud()
+    base = tempfile.mkdtemp(prefix="c13sched.", dir=vlib.scratch())
+    env0 = dict(os.environ, XDG_CONFIG_HOME=os.path.join(base, "xdg"), HOME=base, LC_ALL="C")
+    b3 = s1.B3(drv)
+    digest = b3.data(b"hello", base)
+    b3.close()
+
+    def one(k, env, link_name):
+        root = os.path.join(base, "p%d" % k)
+        os.makedirs(os.path.join(root, "data"))
+        q = dict(cwd=root, env=env, stdout=subprocess.PIPE, stderr=subprocess.PIPE)
+        subprocess.run([dud, "init"], **q)
+        open(os.path.join(root, "data", "m"), "w").write("hello")
+        for j in range(6):
+            open(os.path.join(root, "data", "pad%d" % j), "w").write("pad %d" % j)
+        os.symlink("../.dud/cache/%s/%s" % (digest[:2], digest[2:]), os.path.join(root, "data", link_name))
+        open(os.path.join(root, "data.yaml"), "w").write("outputs:\n  data:\n    is-dir: true\n")
+        subprocess.run([dud, "stage", "add", "data.yaml"], **q)
+        p = subprocess.run([dud, "commit"], timeout=60, **q)
+        shutil.rmtree(root, ignore_errors=True)
+        return p.returncode
+    outcomes = {}
+    for link_name in ("z_link", "a_link"):
+        seq = one(0, dict(env0, DUD_VERIF_SHARED="0", DUD_VERIF_DEDICATED="1"), link_name)      # one worker: the sequential result
+        seen = set()
+        n = 0
+        for k in range(1, 61):
+            n += 1
+            seen.add(one(k, env0, link_name))
+            if len(seen) > 1 or (seen and seq not in seen):
+                break
+        R.count("schedule-dependence-%s" % link_name, True)
+        outcomes[link_name] = dict(sequential_exit=seq, default_pool_exits=sorted(seen), runs=n)
+    shutil.rmtree(base, ignore_errors=True)
+    R.cov["schedule_dependence"] = outcomes
+    bad = {k_: v_ for k_, v_ in outcomes.items() if v_["default_pool_exits"] != [v_["sequential_exit"]]}
+    if bad:
+        kf = [f for f in vlib.load_findings() if f.get("property") == PROP and f.get("matcher") == "dangling-cache-link-next-to-its-content"]
+        if kf:
+            R.known_finding(kf[0]["id"], kf[0]["what"])
+        else:
+            R.violation(dict(kind="property-violated-on-implementation", scenario="directory data/ with the regular file m (bytes 'hello'), six other files and a "
+                             "link whose target is the cache path of BLAKE3('hello') while the cache is empty; `dud commit`", observed=bad,
+                             violations=["the exit status of `dud commit` on the same tree depends on the schedule: one worker exits %s, the default pool %s" % (
+                                 v_["sequential_exit"], v_["default_pool_exits"]) for v_ in bad.values()]))
+
+
 def main(tier, replay=None):
     import json
     R = vlib.Result(PROP, tier)
@@ -195,6 +247,8 @@ def main(tier, replay=None):
         d["pool"] = run["case"]["pool"]
         R.sample(d)
     inproc(R, dud, drv, rng, tier, runs)
+    if not replay:
+        schedule_dependence(R, drv)
     R.absorb_audit(vlib.lean_audit(PROP))
     if tier == "thorough":
         ok, log = vlib.leanchecker(["DudModel.Props.C13"])
